@@ -11,6 +11,7 @@ import OvniModel.Lemmas.EmitEmu
 import OvniModel.Lemmas.EmitInit
 import OvniModel.Emu.Basic
 import OvniModel.Lemmas.TaskHook
+import OvniModel.Lemmas.SysEmit
 
 /-!
 # C06 — view consistency: the tracking muxes compute `thView` / `cpuView`
@@ -1485,6 +1486,122 @@ theorem emu_history_task (tm : Ovni.Task.Model) (P : Ovni.Task.ProcInfo) (tab : 
         rw [hsh1] at hr hfF hEF
         exact ⟨bF, lvsF, freshF, L :: Ls, .cons hw hpp hr, by simp [hlen], hsF, hshF.trans hsh1, hiF, hfF, hEF⟩
 
+/-! ### The system rows
+
+The thread's `cpu` / `tid` / state channels and the CPU's `pid` / `tid` /
+`nrunning` channels are registered with prv by `thread_connect` /
+`cpu_connect`; the reference emulator keeps them in its `Thread` / `Cpu` records
+(`Emu/Core.lean`), and their emit callback is `emitOne` on the record's channel
+(`sysEmit`, `Emu/Emit.lean`).  `SysInv e tl cl`: the `last_value`s `tl` / `cl`
+(a triple per thread / CPU) are consistent with the flushed system channels of
+`e`.  `HookSys`: a hook leaves the system channels alone (true of the hooks in
+use: `hookSys_none`, `hookSys_mark`, `hookSys_task`). -/
+
+/-- **The system rows of one event.**  For the handlers of an accepted event
+    the emit callbacks of the system channels fail iff `sysRecords e'` fails and
+    otherwise write EXACTLY `sysRecords e'` — no redundant line: a system channel
+    is dirty only with a value different from the last one emitted, so `emit`
+    never meets a duplicate there (its "duplicated value" error cannot occur,
+    although `cpu`, `tid`, `pid`, `nrunning` have no duplicate policy).  `SysInv`
+    holds again after the flush. -/
+theorem emu_event_sys {e e' : Emu} {ti mc c v : Nat} {p : List Nat}
+    {th mh : Emu → Nat → Nat → Nat → List Nat → Except Err Emu} (hth : HookSys th) (hmh : HookSys mh)
+    {tl cl : List Lv3} (hs : Shaped e) (hi : SysInv e tl cl)
+    (h : modelEvent e ti mc c v p th mh = .ok e') :
+    sysEmit e' tl cl =
+      (match sysRecords e' with
+      | .error x => .error x
+      | .ok s => .ok (newRows newT e'.threads tl, newRows newC e'.cpus cl, s)) ∧
+    SysInv e'.flushAll (newRows newT e'.threads tl) (newRows newC e'.cpus cl) :=
+  sysEmit_eq hi (SysS.modelEvent hth hmh h hs)
+
+/-- Right after `emu_connect` no system channel has been emitted. -/
+theorem sysInv_init (threads : List (Int × Int × Nat)) (cpus : List (Nat × Int × Bool)) (enabled : List Nat)
+    (lint : Bool) (extra : List ModelSpec) : SysInv (mkEmu threads cpus enabled lint extra) [] [] := by
+  have hg : ∀ (ign : Bool), Good ({ ignoreDup := ign } : Chan) none :=
+    fun ign => ⟨⟨rfl, rfl, rfl, fun h => by cases h⟩, rfl, rfl, Or.inl rfl⟩
+  constructor
+  · intro g t ht
+    simp only [mkEmu, List.getElem?_mapIdx] at ht
+    cases hx : threads[g]? with
+    | none => rw [hx] at ht; cases ht
+    | some x =>
+      obtain ⟨tid, pid, loom⟩ := x
+      rw [hx] at ht
+      simp only [Option.map_some, Option.some.injEq] at ht
+      subst ht
+      exact ⟨hg false, hg true, hg false⟩
+  · intro g x hx
+    simp only [mkEmu, List.getElem?_mapIdx] at hx
+    cases hy : cpus[g]? with
+    | none => rw [hy] at hx; cases hx
+    | some y =>
+      obtain ⟨loom, index, virt⟩ := y
+      rw [hy] at hx
+      simp only [Option.map_some, Option.some.injEq] at hx
+      subst hx
+      exact ⟨hg true, hg true, hg true⟩
+
+/-- **The system rows along a history.**  For every accepted history the
+    system-channel callbacks never fail, and `SysInv` holds at the end (so
+    `emu_event_sys` applies at every instant). -/
+theorem emu_history_sys {th mh : Emu → Nat → Nat → Nat → List Nat → Except Err Emu} (hth : HookSys th)
+    (hmh : HookSys mh) (hths : HookSim th) (hmhs : HookSim mh) (evs : List Ev) :
+    ∀ {e eF : Emu} {rs : List PrvRec} {tl cl : List Lv3},
+    Shaped e → SysInv e tl cl → replay th mh e evs = .ok (eF, rs) → ∃ tlF clF, SysInv eF tlF clF := by
+  induction evs with
+  | nil =>
+    intro e eF rs tl cl _ hi h
+    injection h with h; injection h with h1 _
+    subst h1
+    exact ⟨tl, cl, hi⟩
+  | cons ev evs ih =>
+    intro e eF rs tl cl hs hi h
+    rw [replay] at h
+    split at h
+    · cases h
+    · rename_i e2 rs1 hstep
+      split at h
+      · cases h
+      · rename_i eF' rs2 hrest
+        injection h with h; injection h with h1 _
+        subst h1
+        obtain ⟨e1, hme, _, rfl⟩ := stepEv_ok hstep
+        obtain ⟨_, hi1⟩ := emu_event_sys hth hmh hs hi hme
+        have hs1 : Shaped e1.flushAll := ((Sim.modelEvent hths hmhs hme) hs).1.flushAll
+        exact ih hs1 hi1 hrest
+
+/-- **All lines of one accepted step** (`stepEv = ok (e2, rs)`), system rows and
+    model rows together.  The emit callbacks of `bay_propagate` — those of the
+    system channels (`sysEmit`, lines `s`) and those of the track outputs
+    (`Bay.propagateP`, lines `L`) — all succeed; `s` is exactly `sysRecords`; `L`
+    is a permutation of a list `Lr` whose effective lines are `viewRecordsC`; and
+    when no CPU is fresh, `rs`, the records of the step, are a permutation of `s`
+    followed by the effective lines of `Lr`: **`records` = the lines written,
+    minus the lines that repeat what their row already shows**. -/
+theorem emu_step_lines {e e2 : Emu} {b0 b : Bay} {ti mc c v : Nat} {p : List Nat} {rs : List PrvRec}
+    {th mh : Emu → Nat → Nat → Nat → List Nat → Except Err Emu} (hth : HookSim th) (hmh : HookSim mh)
+    (hths : HookSys th) (hmhs : HookSys mh)
+    {fresh : Nat → Bool} {lvs : List (Option Value)} {tvs : List Int} {tl cl : List Lv3}
+    (hc : e.shape.connect = .ok b0) (hs : Shaped e) (hi : Inv b0 e b) (hf : FreshInv e.shape b fresh)
+    (hE : EmitInv e.shape.regs lvs tvs b) (hS : SysInv e tl cl) (hfl : SpecFlagsOk e.specs)
+    (hd : CpuDfltOk e.specs) (h : stepEv e ti mc c v p th mh = .ok (e2, rs)) :
+    ∃ e1 b1 bF lvs' L Lr s tl' cl', modelEvent e ti mc c v p th mh = .ok e1 ∧ e2 = e1.flushAll ∧
+      Bay.Writes (· < e.shape.L) b b1 ∧
+      sysEmit e1 tl cl = .ok (tl', cl', s) ∧ sysRecords e1 = .ok s ∧
+      b1.propagateP e.shape.regs lvs = .ok (bF, lvs', L) ∧ L.Perm Lr ∧
+      viewRecordsC e e1 fresh (freshE fresh e1) = .ok ((Lr.filter (effective tvs)).map (·.2)) ∧
+      Inv b0 e2 bF ∧ FreshInv e.shape bF (freshE fresh e1) ∧ EmitInv e.shape.regs lvs' (tvStep tvs L) bF ∧
+      SysInv e2 tl' cl' ∧
+      ((∀ cg, cg < e.cpus.length → fresh cg = false) →
+        rs.Perm (s ++ (Lr.filter (effective tvs)).map (·.2))) := by
+  obtain ⟨e1, b1, bF, lvs', L, Lr, s, vr, hme, rfl, hw, hpp, hinv, hfF, hE', hsys, hvr, hLr, hvrL, hperm⟩ :=
+    emu_step_records hth hmh hc hs hi hf hE hfl hd h
+  obtain ⟨hse, hS'⟩ := emu_event_sys hths hmhs hs hS hme
+  rw [hsys] at hse
+  exact ⟨e1, b1, bF, lvs', L, Lr, s, _, _, hme, rfl, hw, hse, hsys, hpp, hLr, hvrL ▸ hvr, hinv, hfF, hE', hS',
+    fun hnf => hvrL ▸ hperm hnf⟩
+
 /-
 -- OPEN (what is left of the last composition step).
 --
@@ -1536,17 +1653,20 @@ theorem emu_history_task (tm : Ovni.Task.Model) (P : Ovni.Task.ProcInfo) (tab : 
 --  (1) In `emu_step_records` the equation `rs ~ sysRecords ++ effective lines` is stated for
 --      states without fresh CPUs; with fresh CPUs the right-hand side is `viewRecordsC`
 --      (exact), which differs from `viewRecords` on the CPU rows with a mux default only.
---  (2) `PRV_ZERO` channels are excluded from the emit theorems (`NoZero`: with `PRV_ZERO` null
---      and 0 both show as 0 and "effective" would have to be stated on values, not lines);
---      no model channel has the flag (`generated_prv_flags`), only the system row
---      `nrunning`, which is part of (3).
+--  (2) `PRV_ZERO` channels are excluded from the bay-side emit theorems (`NoZero`: with
+--      `PRV_ZERO` null and 0 both show as 0 and "effective" would have to be stated on
+--      values, not lines); no model channel has the flag (`generated_prv_flags`), only the
+--      system row `nrunning`, for which the lines are exact anyway (3).
 --  (3) The system channels (thread `cpu` / `tid` / `state` row, CPU `nrunning` / `pid` /
---      `tid`) are not registered in `Shape.regs`: their rows are `emitRaw` of the emulator
---      channel itself (`sysRecords`; `records_split`: `records` = `sysRecords` + `viewRecords`
---      as multisets).  For them `emit` has no duplicate policy except `PRV_SKIPDUP` on the
---      state row; that a dirty system channel never holds its `last_value` again is not
---      proved here (the channels are not ALLOW_DUP, so `chan_set` refuses or ignores the
---      value; covered by X2).
+--      `tid`) are not part of the `Bay` model / `Shape.regs`: the reference emulator keeps
+--      them in its `Thread` / `Cpu` records and their emit callback is modelled on those
+--      records (`sysEmit`).  Proved for them (`emu_event_sys`, `emu_history_sys`,
+--      `emu_step_lines`): the callbacks write exactly `sysRecords` (a dirty system channel
+--      never holds its `last_value` again — `SysOk`, structural induction over the handlers
+--      `SysS.modelEvent` — so the duplicate error of `emit` cannot occur).  Not modelled:
+--      that these channels sit on the same dirty list as the bay's (only the order of the
+--      lines within one timestamp depends on it), and the state channel / `th_running` /
+--      `th_active` exist twice (record and bay source, tied by `Mirrors`).
 --  (4) The task layer of nOS-V / Nanos6 (`VT*`, `VY*`, `6T*`, `6Y*`): `HookSim` is now
 --      PROVED for the task hook (`Emu/TaskHook.lean`, `hooks_in_use_task`, `emu_event_task`,
 --      `emu_history_task`).  What stays open there: the hook keeps the task layer's own copy
@@ -2000,5 +2120,53 @@ example : ∃ eF εF rs bF lvsF tvsF freshF, replayT .nosv ⟨1, -1⟩ [] exEmu 
     obtain ⟨bF, lvsF, freshF, Ls, _, _, _, _, hiF, hfF, hEF⟩ :=
       emu_history_task .nosv ⟨1, -1⟩ [] exHistT exEmuBay_connect hs hi hf hE hfl hd h
     exact ⟨eF, εF, rs, bF, lvsF, _, freshF, rfl, hiF, hfF, hEF⟩
+
+/-! ### Non-vacuity of `emu_step_lines`, final clause included
+
+One thread, one CPU, only the ovni model (no mux default, so no CPU is ever
+fresh: `FreshInv.of_null_defaults`).  Event: `OHx`. -/
+
+def exEmuO : Emu := mkEmu [(100, 10, 0)] [(0, 0, false)] [79] false []
+
+theorem exEmuO_connect : exEmuO.shape.connect = .ok (bayOf exEmuO) := by rfl
+
+theorem exEmuO_step :
+    (match stepEv exEmuO 0 79 72 120 [0, 0, 0, 0] exNoHook exNoHook with
+      | .ok r => decide (r.2.length = 6)
+      | .error _ => false) = true := by decide
+
+/-- All hypotheses of `emu_step_lines` hold, premise of the last clause
+    included: the six records of `OHx` (thread cpu / tid / state, CPU pid / tid /
+    nrunning) are a permutation of the system-row lines followed by the
+    effective lines of the track outputs. -/
+example : ∃ (e2 : Emu) (rs s : List PrvRec) (Lr : List (Nat × PrvRec)) (tvs : List Int),
+    stepEv exEmuO 0 79 72 120 [0, 0, 0, 0] exNoHook exNoHook = .ok (e2, rs) ∧
+    rs.Perm (s ++ (Lr.filter (effective tvs)).map (·.2)) := by
+  cases h : stepEv exEmuO 0 79 72 120 [0, 0, 0, 0] exNoHook exNoHook with
+  | error x => have := exEmuO_step; rw [h] at this; cases this
+  | ok r =>
+    obtain ⟨e2, rs⟩ := r
+    obtain ⟨hfl, hiv, hd⟩ := driver_emit_conditions [79] []
+    have hchars : ((allSpecs.filter (fun s : ModelSpec => [79].contains s.char) ++ []).map ModelSpec.char).Nodup := by
+      decide
+    have hinit : InitSingle (allSpecs.filter (fun s => [79].contains s.char) ++ []) := by
+      rw [List.append_nil]; exact initSingle_allSpecs _
+    obtain ⟨hs, _, bI, lvsI, tvsI, _, _, _, hi, hf, hE⟩ :=
+      emu_init_emit _ _ _ _ _ exEmuO_connect (by decide) hchars hinit hfl hiv
+    have hb := Shape.connect_built exEmuO_connect
+    have hnull : ∀ (mi : Nat) (m : Mux), bI.muxes[mi]? = some m → m.dflt = .null := by
+      intro mi m hm
+      rw [hi.muxes] at hm
+      cases hb.isTrack hm with
+      | th g k i ms out _ _ _ _ => rfl
+      | cpu c k i ms out _ hk _ =>
+        have hms : ms ∈ exEmuO.shape.specs := List.mem_of_getElem? hk
+        have : ∀ ms ∈ exEmuO.shape.specs, ms.cpuDefault = [] := by decide
+        simp only [ModelSpec.cpuDflt, this ms hms, List.find?_nil]
+    have hf' : FreshInv exEmuO.shape bI (fun _ => false) := hf.of_null_defaults hnull
+    obtain ⟨_, _, _, _, _, Lr, s, _, _, _, _, _, _, _, _, _, _, _, _, _, _, hperm⟩ :=
+      emu_step_lines hookSim_none hookSim_none hookSys_none hookSys_none exEmuO_connect hs hi hf' hE
+        (sysInv_init _ _ _ _ _) hfl hd h
+    exact ⟨e2, rs, s, Lr, tvsI, rfl, hperm (fun _ _ => rfl)⟩
 
 end Ovni.Props.C06
